@@ -112,7 +112,7 @@ def valueOf (st : St) (p : Option Nat) : Option JVal :=
   | some i => st.heap.value i
   | none => none
 
-def step (st : St) (line : String) : St × String :=
+partial def step (st : St) (line : String) : St × String :=
   match words line with
   | ["#case"] => ({ cyc := st.cyc }, "#case")
   | "list" :: [] => let (st', r) := doOp st .newList
@@ -147,6 +147,17 @@ def step (st : St) (line : String) : St × String :=
        | some jv => (st, "v " ++ dump jv)
        | none => (st, "cyclic"))
     | _ => (st, "bad-op")
+  | ["poison", w, doc] =>
+    -- a document parsed and dropped: the model's parser has no context state, so nothing changes
+    if w != "0" && w != "2" then (st, "bad-op") else
+    match parseHex doc with
+    | some d =>
+      (match Rfc.parse (sdOf st) d with
+       | some jv => (st, if jv.parseable then "p 1" else "p 0")
+       | none => (st, "p 0"))
+    | none => (st, "bad-op")
+  | ["rtf", v] => step st ("rt " ++ v)
+  | ["rts", v] => step st ("rt " ++ v)
   | ["rt", v] =>
     match slotArg st v with
     | some (some i) =>
